@@ -83,17 +83,64 @@ def check_trapz(rep, prog):
                 if not okx:
                     why += ': numpy.dot(weights, yy) contracts the second-to-last axis of yy when yy has more than two dimensions'
         rep.ob('R-ALG', 'Numerics.trapz fast path', okx, why, m.rel, extra.lineno, what='every return path integrates along the requested axis with the trapezoid weights')
-    ok = sl.get('slice1') == 'slice(1, None)' and sl.get('slice2') == 'slice(None, -1)' and sl.get('sliceX') == 'slice(None)'
+    # the main path, for 1..3-dimensional integrands, every axis (also counted from the end), spacing given as xx or as dx: abstract
+    # execution; the value returned is sum over `axis` of  dx[aligned with axis] * (yy[1:] + yy[:-1]) / 2  with the slices on `axis`
+    from sa import miniexec as mx
+    from sa import alpha as _alpha
+    known_ = _alpha.load_table().get('__params__', {}).get(m.rel)
+    known_ = set(known_) if known_ is not None else None
+    ok = True
+    why = []
+
+    def hook(nm, args, kwargs):
+        if nm in ('numpy.asanyarray', 'np.asanyarray', 'numpy.asarray', 'np.asarray') and args and isinstance(args[0], mx.Sym):
+            return args[0]
+        return NotImplemented
     try:
-        e = parse_expr(ast.unparse(ret.value.args[0]).replace('dx[sliceX]', 'DX').replace('yy[slice1]', 'Y1').replace('yy[slice2]', 'Y0'))
-        ok = ok and e.equals(parse_expr('DX*(Y1 + Y0)/2')) and dotted(ret.value.func) == 'numpy.sum' and any(k.arg == 'axis' and ast.unparse(k.value) == 'axis' for k in ret.value.keywords)
-    except (AlgebraError, IndexError, AttributeError):
-        ok = False
-    dxs = [n for n in own_nodes(fn) if isinstance(n, ast.Assign) and ast.unparse(n.targets[0]) == 'dx']
-    ok = ok and any(ast.unparse(n.value) == 'numpy.diff(xx)' for n in dxs)
-    tup = [n for n in own_nodes(fn) if isinstance(n, ast.Assign) and isinstance(n.targets[0], ast.Tuple) and 'tuple(slice1)' in ast.unparse(n.value)]
-    ok = ok and bool(tup)
-    rep.ob('R-ALG', 'Numerics.trapz', ok, 'sum_j dx_j (y_{j+1} + y_j)/2 along the given axis: node weights (dx_{j-1} + dx_j)/2 inside, dx_0/2 and dx_{N-2}/2 at the ends', m.rel, fn.lineno,
+        for nd in (1, 2, 3):
+            for axis in list(range(nd)) + [-1]:
+                for mode in ('xx', 'dx'):
+                    it = mx.Interp(prog, m, call_hook=hook, known_functions=known_)
+                    yyv = mx.Sym('yy', attrs={'ndim': nd, 'shape': mx.Sym('yy.shape', length=nd)})
+                    args = {'yy': yyv, 'xx': mx.Sym('xx') if mode == 'xx' else None, 'dx': mx.Sym('dx') if mode == 'dx' else None, 'axis': axis}
+                    paths = [p_ for p_ in it.run(fn, args) if p_[0][0] == 'return']
+                    if len(paths) != 1:
+                        ok = False
+                        why.append('nd=%d axis=%d %s: %d returning paths' % (nd, axis, mode, len(paths)))
+                        continue
+                    v = paths[0][0][1]
+                    c = mx.call_of(v, 'sum')
+                    if not c or mx.show(c[1].get('axis', c[0][1] if len(c[0]) > 1 else None)) != str(axis):
+                        ok = False
+                        why.append('nd=%d axis=%d: result %s is not a sum over the axis' % (nd, axis, mx.show(v)[:50]))
+                        continue
+                    ax = axis % nd
+                    spacing = 'numpy.diff(xx)' if mode == 'xx' else 'dx'
+
+                    def leaf(x):
+                        if isinstance(x, mx.Sym) and x.struct and x.struct[0] == 'index':
+                            base, key = mx.show(x.struct[1]).replace('np.', 'numpy.'), x.struct[2] if isinstance(x.struct[2], tuple) else (x.struct[2],)
+                            if len(key) != nd:
+                                return None
+                            if base == spacing and all((mx.is_full_slice(k_) if i_ == ax else mx.is_newaxis(k_)) for i_, k_ in enumerate(key)):
+                                return Rat.atom('DX')
+                            if base == 'yy' and all(mx.is_full_slice(k_) for i_, k_ in enumerate(key) if i_ != ax) and isinstance(key[ax], slice) and key[ax].step in (None, 1):
+                                if (key[ax].start, key[ax].stop) == (1, None):
+                                    return Rat.atom('Y1')
+                                if (key[ax].start, key[ax].stop) == (None, -1):
+                                    return Rat.atom('Y0')
+                        return None
+                    try:
+                        got = mx.to_rat(c[0][0], leaf)
+                        if not got.equals(parse_expr('DX*(Y1 + Y0)/2')):
+                            ok = False
+                            why.append('nd=%d axis=%d %s: summand %s' % (nd, axis, mode, got.canon()[:80]))
+                    except AlgebraError as e:
+                        ok = False
+                        why.append('nd=%d axis=%d %s: %s' % (nd, axis, mode, e))
+    except mx.Undecidable as e:
+        raise AnalysisError('Numerics.trapz is not recognised: %s' % e)
+    rep.ob('R-ALG', 'Numerics.trapz', ok, 'sum_j dx_j (y_{j+1} + y_j)/2 along the given axis: node weights (dx_{j-1} + dx_j)/2 inside, dx_0/2 and dx_{N-2}/2 at the ends' + ('' if ok else ': ' + '; '.join(why[:2])), m.rel, fn.lineno,
            what='composite trapezoid rule')
     return ok
 
@@ -224,12 +271,16 @@ def check_marginalisation(rep, prog):
     pm = prog.mod('dadi.PhiManip')
     rp = prog.func('dadi.PhiManip', 'remove_pop')
     ret = [n for n in own_nodes(rp) if isinstance(n, ast.Return)]
-    ok = len(ret) == 1 and isinstance(ret[0].value, ast.Call) and dotted(ret[0].value.func) == 'Numerics.trapz' and [ast.unparse(a) for a in ret[0].value.args] == ['phi', 'xx'] and \
-        {k.arg: ast.unparse(k.value) for k in ret[0].value.keywords} == {'axis': 'popnum - 1'}
+    ok = len(ret) == 1 and isinstance(ret[0].value, ast.Call) and dotted(ret[0].value.func) == 'Numerics.trapz'
+    if ok:
+        b_, problems_ = bind_call(prog.func('dadi.Numerics', 'trapz'), ret[0].value)
+        ok = not problems_ and {k: ast.unparse(v) for k, v in b_.items() if not (isinstance(v, ast.Constant) and v.value is None)} == {'yy': 'phi', 'xx': 'xx', 'axis': 'popnum - 1'}
     rep.ob('R-IDX', 'PhiManip.remove_pop', ok, ast.unparse(ret[0]) if ret else '', pm.rel, rp.lineno, what='integrates axis popnum-1 with the trapezoid rule')
     fp = prog.func('dadi.PhiManip', 'filter_pops')
     loops = [n for n in own_nodes(fp) if isinstance(n, ast.For)]
-    ok = len(loops) == 2 and ast.unparse(loops[1].iter) == 'sorted(toremove)[::-1]' and 'remove_pop(phi, xx, pop_ii)' in ast.unparse(loops[1]) and \
+    # (toremove is list(range(1, ndim + 1)) with entries removed, hence ascending: reversing it is the descending order)
+    ok = len(loops) == 2 and ast.unparse(loops[1].iter) in ('sorted(toremove)[::-1]', 'reversed(toremove)', 'toremove[::-1]', 'sorted(toremove, reverse=True)', 'reversed(sorted(toremove))') and \
+        'remove_pop(phi, xx, pop_ii)' in ast.unparse(loops[1]) and \
         ast.unparse(loops[0].iter) == 'tokeep' and 'toremove.remove(pop_ii)' in ast.unparse(loops[0])
     tr0 = single_assignments(fp).get('toremove')
     ok = ok and tr0 is not None and ast.unparse(tr0) == 'list(range(1, phi.ndim + 1))'
